@@ -47,6 +47,28 @@ fn cases(thorough: bool) -> Vec<CaseSpec> {
     res
 }
 
+/// The size limit as the real configuration code produces it for the
+/// documented spelling (0 = disabled), given on the command line (even
+/// case indexes) or in the config file (odd ones).
+fn configured_limit(dir: &std::path::Path, idx: usize, limit: Option<u64>) -> Result<Option<u64>, String> {
+    use clap::Command;
+    use routinator::config::Config;
+    let value = limit.unwrap_or(0);
+    let conf = dir.join("limit.conf");
+    let mut args: Vec<String> = vec!["routinator".into(), "-c".into(), conf.display().to_string()];
+    if idx % 2 == 0 {
+        std::fs::write(&conf, "repository-dir = \"/nonexistent\"\n").map_err(|e| e.to_string())?;
+        args.push("--max-object-size".into());
+        args.push(value.to_string());
+    }
+    else {
+        std::fs::write(&conf, format!("repository-dir = \"/nonexistent\"\nmax-object-size = {value}\n")).map_err(|e| e.to_string())?;
+    }
+    let matches = Config::config_args(Command::new("routinator")).try_get_matches_from(&args).map_err(|e| e.to_string())?;
+    let config = Config::from_arg_matches(&matches, dir).map_err(|_| "config rejected".to_string())?;
+    Ok(config.max_object_size)
+}
+
 fn blob(size: u64, seed: u8) -> Vec<u8> {
     (0..size).map(|i| (i as u8).wrapping_mul(31).wrapping_add(seed)).collect()
 }
@@ -55,7 +77,7 @@ fn run_case(dir: std::path::PathBuf, idx: usize, c: &CaseSpec) -> Result<String,
     let case = Case::new(dir);
     let mut config = case.config();
     config.disable_rrdp = false;
-    config.max_object_size = c.limit;
+    config.max_object_size = configured_limit(&case.dir, idx, c.limit).map_err(|e| ("harness".to_string(), e))?;
     let host = format!("c{idx}.c38.example");
     let mut collector = RrdpCollector::new(&config).ok().flatten().ok_or(("harness".to_string(), "no collector".to_string()))?;
     collector.ignite().map_err(|_| ("harness".to_string(), "ignite".to_string()))?;
@@ -147,7 +169,9 @@ pub fn run(ctx: &Ctx) -> Report {
         limit+1} (disabled: 1 byte and 25 MB) x Content-Length present / \
         absent x path {HTTPS trust anchor download, object published in \
         an RRDP snapshot, object published in an RRDP delta}, on the real \
-        RRDP collector over the fake HTTPS transport; oracle: accepted \
+        RRDP collector over the fake HTTPS transport, the limit being \
+        configured through the real option parsing (command line for \
+        even, config file for odd case numbers; 0 = disabled); oracle: accepted \
         (trust anchor bytes returned in full / update succeeds and the \
         object is loadable) iff size <= limit or the limit is disabled; \
         non-trivial = cases at limit or limit+1, and the 25 MB cases".into();
